@@ -7,6 +7,7 @@ import PfVerif.Driver.Risk
 import PfVerif.Driver.DType
 import PfVerif.Driver.Fit
 import PfVerif.Driver.Grad
+import PfVerif.Driver.Stoch
 namespace PfVerif.Driver
 open Lean
 
@@ -39,6 +40,7 @@ def dispatch (op : String) (j : Json) : R Json :=
   | "dt_seq" => opDtSeq j
   | "fit" => opFit j
   | "grad" => opGrad j
+  | "gen" => opGen j
   | _ => .error s!"unknown op {op}"
 
 end PfVerif.Driver
